@@ -4,7 +4,7 @@
 //!           Display of the REAL parser's tree   vs  Model.Pratt (raw / parse_top / display)
 //!   praw  : mutated / malformed token streams: accept-reject + Display  vs  Model.Pratt.parse_top
 use serde_json::json;
-use tera::Delimiters;
+use tera::{Context, Delimiters, Tera, Value};
 use tvh::*;
 
 // ------------------------------------------------------------------ surface syntax (Pratt.v `sx`)
@@ -2089,6 +2089,470 @@ const HANDWRITTEN2: &[&str] = &[
     "null is none",
 ];
 
+// ------------------------------------------------------------------ family eval (evaluation half)
+
+fn vmap(es: Vec<(&'static str, Value)>) -> Value {
+    let mut m = tera::Map::new();
+    for (k, v) in es {
+        m.insert(k.into(), v);
+    }
+    Value::from(m)
+}
+fn varr(v: Vec<Value>) -> Value {
+    Value::from(v)
+}
+fn vi(i: i64) -> Value {
+    Value::from(i)
+}
+
+/// (name, value, truthy) — every kind of value a variable can be bound to
+fn value_pool() -> Vec<(&'static str, Value, Option<bool>)> {
+    vec![
+        ("none", Value::none(), Some(false)),
+        ("true", Value::from(true), Some(true)),
+        ("false", Value::from(false), Some(false)),
+        ("0", vi(0), Some(false)),
+        ("1", vi(1), Some(true)),
+        ("-1", vi(-1), Some(true)),
+        ("2", vi(2), Some(true)),
+        ("7", vi(7), Some(true)),
+        ("10", vi(10), Some(true)),
+        ("i64max", vi(i64::MAX), Some(true)),
+        ("i64min", vi(i64::MIN), Some(true)),
+        ("1.5", Value::from(1.5f64), None),
+        ("0.0", Value::from(0.0f64), None),
+        ("str-empty", Value::from(""), Some(false)),
+        ("str-a", Value::from("a"), Some(true)),
+        ("str-abc", Value::from("abc"), Some(true)),
+        ("str-x-y", Value::from("x y"), Some(true)),
+        ("arr-empty", varr(vec![]), Some(false)),
+        ("arr-123", varr(vec![vi(1), vi(2), vi(3)]), Some(true)),
+        ("arr-ab", varr(vec![Value::from("a"), Value::from("b")]), Some(true)),
+        ("arr-mixed", varr(vec![vi(1), Value::from("a"), Value::from(true), Value::none()]), Some(true)),
+        ("map-empty", vmap(vec![]), Some(false)),
+        ("map-ab", vmap(vec![("a", vi(1)), ("b", Value::from("x"))]), Some(true)),
+        ("map-a-b", vmap(vec![("a", vmap(vec![("b", vi(2))]))]), Some(true)),
+        ("map-n-none", vmap(vec![("n", Value::none())]), Some(true)),
+        ("map-f-g", vmap(vec![("f", vmap(vec![("g", vi(5))]))]), Some(true)),
+        ("map-f-none", vmap(vec![("f", Value::none())]), Some(true)),
+        ("map-f-arr", vmap(vec![("f", varr(vec![vi(4), vi(5)])), ("a", varr(vec![vi(1), vi(2)]))]), Some(true)),
+        ("arr-nested", varr(vec![varr(vec![vi(1)]), varr(vec![vi(2), vi(3)])]), Some(true)),
+        ("arr-of-map", varr(vec![vmap(vec![("a", vi(1)), ("f", vi(9))])]), Some(true)),
+        ("arr-undef-free", varr(vec![Value::none(), vi(0)]), Some(true)),
+    ]
+}
+
+fn sstr(s: &str) -> Sx {
+    Sx::Const(Const::Str(s.to_string()))
+}
+fn throw_call() -> Sx {
+    Sx::Call("throw".into(), vec![("message".into(), sstr("b"))])
+}
+fn attr(e: Sx, a: &str, opt: bool) -> Sx {
+    Sx::Attr(bx(e), a.to_string(), opt)
+}
+fn item_o(e: Sx, i: Sx, opt: bool) -> Sx {
+    Sx::Item(bx(e), bx(i), opt)
+}
+fn arr(items: Vec<(bool, Sx)>) -> Sx {
+    Sx::Arr(items)
+}
+
+impl Sx {
+    fn n_nodes(&self) -> usize {
+        let mut n = 1;
+        self.for_children(&mut |c| n += c.n_nodes());
+        n
+    }
+    fn has_var(&self) -> bool {
+        if matches!(self, Sx::Var(_)) {
+            return true;
+        }
+        let mut r = false;
+        self.for_children(&mut |c| r = r || c.has_var());
+        r
+    }
+}
+
+type Shape = (&'static str, Box<dyn Fn(&Sx) -> Sx>);
+
+/// the systematic shapes around an operand X; the first `N_PRINT_SHAPES` also run in print mode
+const N_PRINT_SHAPES: usize = 10;
+fn eval_shapes() -> Vec<Shape> {
+    fn s(n: &'static str, f: impl Fn(&Sx) -> Sx + 'static) -> Shape {
+        (n, Box::new(f))
+    }
+    vec![
+        s("X", |x| x.clone()),
+        s("X and throw", |x| bin(Bop::And, x.clone(), throw_call())),
+        s("X or throw", |x| bin(Bop::Or, x.clone(), throw_call())),
+        s("throw if X else 1", |x| tern(x.clone(), throw_call(), cint(1))),
+        s("1 if X else throw", |x| tern(x.clone(), cint(1), throw_call())),
+        s("X and 1", |x| bin(Bop::And, x.clone(), cint(1))),
+        s("X or 1", |x| bin(Bop::Or, x.clone(), cint(1))),
+        s("0 or X", |x| bin(Bop::Or, cint(0), x.clone())),
+        s("1 and X", |x| bin(Bop::And, cint(1), x.clone())),
+        s("X.f", |x| attr(x.clone(), "f", false)),
+        s("X?.f", |x| attr(x.clone(), "f", true)),
+        s("X?.f?.g", |x| attr(attr(x.clone(), "f", true), "g", true)),
+        s("X.f.g", |x| attr(attr(x.clone(), "f", false), "g", false)),
+        s("X.f?.g", |x| attr(attr(x.clone(), "f", false), "g", true)),
+        s("X['a']", |x| item(x.clone(), sstr("a"))),
+        s("X[0]", |x| item(x.clone(), cint(0))),
+        s("X[-1]", |x| item(x.clone(), un(Unop::Minus, cint(1)))),
+        s("X[5]", |x| item(x.clone(), cint(5))),
+        s("X?[0]", |x| item_o(x.clone(), cint(0), true)),
+        s("X?['a']", |x| item_o(x.clone(), sstr("a"), true)),
+        s("X?[nope]", |x| item_o(x.clone(), var("nope_i"), true)),
+        s("X[none]", |x| item(x.clone(), Sx::Const(Const::Null))),
+        s("X[true]", |x| item(x.clone(), Sx::Const(Const::Bool(true)))),
+        s("'abc'[X]", |x| item(sstr("abc"), x.clone())),
+        s("[1,2,3][X]", |x| item(arr(vec![(false, cint(1)), (false, cint(2)), (false, cint(3))]), x.clone())),
+        s("X + 1", |x| bin(Bop::Plus, x.clone(), cint(1))),
+        s("1 + X", |x| bin(Bop::Plus, cint(1), x.clone())),
+        s("X - 1", |x| bin(Bop::Minus, x.clone(), cint(1))),
+        s("X * 2", |x| bin(Bop::Mul, x.clone(), cint(2))),
+        s("-X", |x| un(Unop::Minus, x.clone())),
+        s("not X", |x| un(Unop::Not, x.clone())),
+        s("X ~ 's'", |x| bin(Bop::Concat, x.clone(), sstr("s"))),
+        s("'s' ~ X", |x| bin(Bop::Concat, sstr("s"), x.clone())),
+        s("X in [1,'a']", |x| bin(Bop::In, x.clone(), arr(vec![(false, cint(1)), (false, sstr("a"))]))),
+        s("X not in [1,'a']", |x| Sx::NotIn(bx(x.clone()), bx(arr(vec![(false, cint(1)), (false, sstr("a"))])))),
+        s("1 in X", |x| bin(Bop::In, cint(1), x.clone())),
+        s("'a' in X", |x| bin(Bop::In, sstr("a"), x.clone())),
+        s("X < 1", |x| bin(Bop::Lt, x.clone(), cint(1))),
+        s("1 <= X", |x| bin(Bop::Le, cint(1), x.clone())),
+        s("X == 1", |x| bin(Bop::Eq, x.clone(), cint(1))),
+        s("X != 'a'", |x| bin(Bop::Ne, x.clone(), sstr("a"))),
+        s("X is defined", |x| test(x.clone(), "defined", false)),
+        s("X is undefined", |x| test(x.clone(), "undefined", false)),
+        s("X is not defined", |x| test(x.clone(), "defined", true)),
+        s("X is odd", |x| test(x.clone(), "odd", false)),
+        s("X | default(value=5)", |x| Sx::Filter(bx(x.clone()), "default".into(), vec![("value".into(), cint(5))])),
+        s("X | length", |x| filt(x.clone(), "length")),
+        s("[X, 1]", |x| arr(vec![(false, x.clone()), (false, cint(1))])),
+        s("[...X, 1]", |x| arr(vec![(true, x.clone()), (false, cint(1))])),
+        s("(X or 2) + 1", |x| bin(Bop::Plus, bin(Bop::Or, x.clone(), cint(2)), cint(1))),
+        s("X if X is defined else 'd'", |x| tern(test(x.clone(), "defined", false), x.clone(), sstr("d"))),
+    ]
+}
+
+/// the operands X of the systematic generator: (name, tree, context)
+fn eval_operands(step: usize) -> Vec<(String, Sx, Vec<(String, Value)>)> {
+    let mut out = Vec::new();
+    for (i, (n, v, _)) in value_pool().into_iter().enumerate() {
+        if i % step == 0 {
+            out.push((format!("v={n}"), var("v"), vec![("v".to_string(), v)]));
+        }
+    }
+    let m_ab = vmap(vec![("a", vi(1)), ("b", Value::from("x"))]);
+    let m_n = vmap(vec![("n", Value::none())]);
+    let m_a_b = vmap(vec![("a", vmap(vec![("b", vi(2))]))]);
+    let m = |v: &Value| vec![("m".to_string(), v.clone())];
+    out.push(("unbound".into(), var("nope"), vec![]));
+    out.push(("m.missing".into(), attr(var("m"), "missing", false), m(&m_ab)));
+    out.push(("m['missing']".into(), item(var("m"), sstr("missing")), m(&m_ab)));
+    out.push(("m.n=none".into(), attr(var("m"), "n", false), m(&m_n)));
+    out.push(("m.a.b".into(), attr(attr(var("m"), "a", false), "b", false), m(&m_a_b)));
+    out.push(("m.a.missing".into(), attr(attr(var("m"), "a", false), "missing", false), m(&m_a_b)));
+    out.push(("nope.a".into(), attr(var("nope"), "a", false), vec![]));
+    out.push(("nope?.a".into(), attr(var("nope"), "a", true), vec![]));
+    out.push(("m.missing.x".into(), attr(attr(var("m"), "missing", false), "x", false), m(&m_ab)));
+    out.push(("m.missing?.x".into(), attr(attr(var("m"), "missing", false), "x", true), m(&m_ab)));
+    out.push(("xs[9]".into(), item(var("xs"), cint(9)), vec![("xs".to_string(), varr(vec![vi(1), vi(2)]))]));
+    out
+}
+
+fn expr_text(s: &Sx, rng: &mut Rng) -> String {
+    let t = render(&raw(s), if rng.chance(1, 4) { 1 } else { 0 }, rng);
+    t[2..t.len() - 2].trim().to_string()
+}
+
+fn context_of(env: &[(String, Value)]) -> Context {
+    let mut ctx = Context::new();
+    for (k, v) in env {
+        ctx.insert_value(k.clone(), v.clone());
+    }
+    ctx
+}
+
+fn run_eval(tera: &Tera, text: &str, env: &[(String, Value)], print: bool) -> Outcome<Value> {
+    let ctx = context_of(env);
+    if print {
+        match guarded(|| tera.render_str(&format!("{{{{ {text} }}}}"), &ctx, false)) {
+            Outcome::Ok(_) => Outcome::Ok(Value::none()),
+            Outcome::Err(c, m) => Outcome::Err(c, m),
+            Outcome::Panic(m) => Outcome::Panic(m),
+        }
+    } else {
+        eval_expr(tera, text, &ctx)
+    }
+}
+
+fn json_env(env: &[(String, Value)]) -> serde_json::Value {
+    serde_json::Value::Object(env.iter().map(|(k, v)| (k.clone(), json_value(v))).collect())
+}
+
+fn emit_eval(sink: &mut Sink, meta: &mut Meta, tera: &Tera, s: &Sx, env: &[(String, Value)], print: bool, shape: &str, rng: &mut Rng) {
+    let text = expr_text(s, rng);
+    let r = run_eval(tera, &text, env, print);
+    let desc = json!({"text": text, "ctx": json_env(env), "print": print, "shape": shape, "impl": r.json(json_value)});
+    meta.oracle_checks += 1;
+    if let Outcome::Panic(m) = &r {
+        meta.oracle_fail(&format!("panic while evaluating: {m}"), None, desc.clone());
+    }
+    let envg: Vec<String> = env.iter().map(|(k, v)| format!("({}, {})", gal_str(k), gal_value(v))).collect();
+    let g = format!(
+        "{{| ev_sx := {}; ev_env := [{}]; ev_print := {}; ev_impl := {} |}}",
+        gal_sx(s),
+        envg.join("; "),
+        gal_bool(print),
+        r.gal(gal_value)
+    );
+    let tag_res = match &r {
+        Outcome::Ok(v) if v.is_undefined() => "impl:undefined",
+        Outcome::Ok(_) => "impl:ok",
+        Outcome::Err(..) => "impl:err",
+        Outcome::Panic(_) => "impl:panic",
+    };
+    let shape_tag = format!("shape:{}", shape.split(" @ ").next().unwrap_or("?").trim());
+    let tags = [if print { "mode:print" } else { "mode:probe" }, tag_res, shape_tag.as_str()];
+    sink.push(g, desc, s.n_nodes() >= 2 && s.has_var(), None, &tags);
+}
+
+/// random expressions over the documented fragment, with registered builtins only
+struct EvalGen<'r> {
+    rng: &'r mut Rng,
+    vars: Vec<&'static str>,
+}
+
+const EV_STRS: [&str; 5] = ["", "a", "abc", "x y", "b"];
+const EV_ATTRS: [&str; 7] = ["a", "b", "n", "f", "g", "missing", "x"];
+
+impl<'r> EvalGen<'r> {
+    fn konst(&mut self) -> Sx {
+        match self.rng.below(10) {
+            0..=4 => cint(self.rng.range(0, 5)),
+            5..=7 => sstr(self.rng.pick(&EV_STRS)),
+            8 => Sx::Const(Const::Bool(self.rng.chance(1, 2))),
+            _ => Sx::Const(Const::Null),
+        }
+    }
+    fn a_var(&mut self) -> Sx {
+        var(self.rng.pick(&self.vars))
+    }
+    fn atom(&mut self) -> Sx {
+        if self.rng.chance(3, 5) { self.a_var() } else { self.konst() }
+    }
+    fn index(&mut self, n: usize) -> Sx {
+        match self.rng.below(8) {
+            0..=2 => cint(self.rng.range(0, 3)),
+            3 => un(Unop::Minus, cint(self.rng.range(1, 3))),
+            4..=5 => sstr(self.rng.pick(&EV_ATTRS)),
+            _ => self.expr(n.max(1)),
+        }
+    }
+    fn chain(&mut self, n: usize) -> Sx {
+        let mut e = self.a_var();
+        let mut left = n.saturating_sub(1).max(1);
+        while left > 0 {
+            let opt = self.rng.chance(1, 3);
+            if self.rng.chance(3, 5) {
+                e = attr(e, self.rng.pick(&EV_ATTRS), opt);
+                left -= 1;
+            } else {
+                let take = 1 + self.rng.below(left.min(3));
+                let i = self.index(take);
+                e = item_o(e, i, opt);
+                left -= take;
+            }
+        }
+        e
+    }
+    fn split2(&mut self, n: usize) -> (usize, usize) {
+        let a = 1 + self.rng.below(n.saturating_sub(1).max(1));
+        (a, n.saturating_sub(a).max(1))
+    }
+    fn expr(&mut self, n: usize) -> Sx {
+        if n <= 1 {
+            return self.atom();
+        }
+        for _ in 0..20 {
+            match self.rng.below(100) {
+                0..=27 if n >= 3 => {
+                    let (p, q) = self.split2(n - 1);
+                    // and / or more often than their share
+                    let o = if self.rng.chance(1, 4) {
+                        if self.rng.chance(1, 2) { Bop::And } else { Bop::Or }
+                    } else {
+                        *self.rng.pick(&BOPS)
+                    };
+                    let a = self.expr(p);
+                    return bin(o, a, self.expr(q));
+                }
+                28..=31 if n >= 3 => {
+                    let (p, q) = self.split2(n - 1);
+                    let a = self.expr(p);
+                    return Sx::NotIn(bx(a), bx(self.expr(q)));
+                }
+                32..=40 => {
+                    let u = if self.rng.chance(1, 2) { Unop::Not } else { Unop::Minus };
+                    return un(u, self.expr(n - 1));
+                }
+                41..=49 => {
+                    let t = *self.rng.pick(&["defined", "undefined", "odd", "even", "string", "number", "defined", "undefined"]);
+                    return test(self.expr(n - 1), t, self.rng.chance(1, 3));
+                }
+                50..=58 => {
+                    return match self.rng.below(6) {
+                        0..=2 if n >= 3 => {
+                            let (p, q) = self.split2(n - 1);
+                            let e = self.expr(p);
+                            Sx::Filter(bx(e), "default".into(), vec![("value".into(), self.expr(q))])
+                        }
+                        3 => filt(self.expr(n - 1), "upper"),
+                        4 => filt(self.expr(n - 1), "abs"),
+                        _ => filt(self.expr(n - 1), "length"),
+                    };
+                }
+                59..=62 => {
+                    return if self.rng.chance(2, 3) {
+                        throw_call()
+                    } else {
+                        Sx::Call("range".into(), vec![("end".into(), cint(3))])
+                    };
+                }
+                63..=71 if n >= 4 => {
+                    let (p, rest) = self.split2(n - 1);
+                    let (q, r) = self.split2(rest.max(2));
+                    let c = self.expr(p);
+                    let t = self.expr(q);
+                    return tern(c, t, self.expr(r));
+                }
+                72..=85 => return self.chain(n),
+                86..=89 if n >= 3 => {
+                    let (p, q) = self.split2(n - 1);
+                    let base = self.expr(p);
+                    return item(base, self.index(q));
+                }
+                90..=95 => {
+                    let k = 1 + self.rng.below((n - 1).min(3));
+                    let mut items = Vec::new();
+                    for _ in 0..k {
+                        let sp = self.rng.chance(1, 4);
+                        let v = self.expr(((n - 1) / k).max(1));
+                        items.push((sp, v));
+                    }
+                    return arr(items);
+                }
+                96..=99 => return paren_sx(self.expr(n - 1)),
+                _ => {}
+            }
+        }
+        self.atom()
+    }
+}
+
+fn random_eval_case(rng: &mut Rng, pool: &[(&'static str, Value, Option<bool>)]) -> (Sx, Vec<(String, Value)>) {
+    const NAMES: [&str; 7] = ["a", "b", "c", "m", "xs", "s", "nope"];
+    let k = 2 + rng.below(3);
+    let mut names: Vec<&'static str> = NAMES.to_vec();
+    let mut vars = Vec::new();
+    for _ in 0..k {
+        let i = rng.below(names.len());
+        vars.push(names.remove(i));
+    }
+    let mut env = Vec::new();
+    for v in &vars {
+        if *v == "nope" || rng.chance(1, 6) {
+            continue; // unbound
+        }
+        // a bias towards the kind the name suggests
+        let want = |n: &str| -> bool {
+            match *v {
+                "m" => n.starts_with("map"),
+                "xs" => n.starts_with("arr"),
+                "s" => n.starts_with("str"),
+                _ => true,
+            }
+        };
+        let mut pick = rng.pick(pool);
+        for _ in 0..3 {
+            if want(pick.0) {
+                break;
+            }
+            pick = rng.pick(pool);
+        }
+        env.push((v.to_string(), pick.1.clone()));
+    }
+    let n = 3 + rng.below(12);
+    let mut g = EvalGen { rng, vars };
+    (g.expr(n), env)
+}
+
+/// oracles on the engine alone: short-circuit of and / or / ternary, one level of undefined
+fn eval_oracles(tera: &Tera, meta: &mut Meta) {
+    let check = |meta: &mut Meta, what: &str, text: &str, env: &[(String, Value)], print: bool, ok: &dyn Fn(&Outcome<Value>) -> bool| {
+        let r = run_eval(tera, text, env, print);
+        meta.oracle_checks += 1;
+        if r.is_panic() || !ok(&r) {
+            meta.oracle_fail(what, None, json!({"text": text, "ctx": json_env(env), "print": print, "result": r.json(json_value)}));
+        }
+    };
+    let is_val = |want: &Value| {
+        let w = gal_value(want);
+        move |r: &Outcome<Value>| matches!(r, Outcome::Ok(v) if gal_value(v) == w)
+    };
+    let is_err = |r: &Outcome<Value>| matches!(r, Outcome::Err(..));
+    let mut operands: Vec<(Vec<(String, Value)>, Value, bool)> = value_pool()
+        .into_iter()
+        .filter_map(|(_, v, t)| t.map(|t| (vec![("v".to_string(), v.clone())], v, t)))
+        .collect();
+    operands.push((vec![], Value::undefined(), false));
+    for (env, v, truthy) in &operands {
+        if *truthy {
+            check(meta, "`T or throw()` must yield T without evaluating the right operand", "v or throw(message=\"b\")", env, false, &is_val(v));
+            check(meta, "`1 if T else throw()` must yield 1", "1 if v else throw(message=\"b\")", env, false, &is_val(&vi(1)));
+            check(meta, "`T and throw()` must evaluate the right operand (error)", "v and throw(message=\"b\")", env, false, &is_err);
+            check(meta, "`throw() if T else 2` must evaluate the taken branch (error)", "throw(message=\"b\") if v else 2", env, false, &is_err);
+        } else {
+            check(meta, "`F and throw()` must yield F without evaluating the right operand", "v and throw(message=\"b\")", env, false, &is_val(v));
+            check(meta, "`throw() if F else 2` must yield 2", "throw(message=\"b\") if v else 2", env, false, &is_val(&vi(2)));
+            check(meta, "`F or throw()` must evaluate the right operand (error)", "v or throw(message=\"b\")", env, false, &is_err);
+            check(meta, "`1 if F else throw()` must evaluate the taken branch (error)", "1 if v else throw(message=\"b\")", env, false, &is_err);
+        }
+    }
+    // printing / one level of undefined
+    let m = vec![("m".to_string(), vmap(vec![("a", vi(1))])), ("n".to_string(), Value::none())];
+    let printed = |tera: &Tera, text: &str, env: &[(String, Value)]| -> Outcome<String> {
+        let ctx = context_of(env);
+        guarded(|| tera.render_str(&format!("{{{{ {text} }}}}"), &ctx, false))
+    };
+    let check_print = |meta: &mut Meta, what: &str, text: &str, want: Option<&str>| {
+        let r = printed(tera, text, &m);
+        meta.oracle_checks += 1;
+        let ok = match (&r, want) {
+            (Outcome::Ok(s), Some(w)) => s == w,
+            (Outcome::Err(..), None) => true,
+            _ => false,
+        };
+        if !ok {
+            meta.oracle_fail(what, None, json!({"text": text, "ctx": json_env(&m), "print": true, "result": r.json(|s| json!(s))}));
+        }
+    };
+    check_print(meta, "`{{ nope }}` must be an error", "nope", None);
+    check_print(meta, "`{{ nope or 1 }}` must print 1", "nope or 1", Some("1"));
+    check_print(meta, "`{{ nope.x or 1 }}` must be an error (one level of undefined)", "nope.x or 1", None);
+    check_print(meta, "`{{ m.missing or 1 }}` must print 1", "m.missing or 1", Some("1"));
+    check_print(meta, "`{{ m.missing.x or 1 }}` must be an error (one level of undefined)", "m.missing.x or 1", None);
+    check_print(meta, "`{{ nope?.a?.b or \"d\" }}` must print d", "nope?.a?.b or \"d\"", Some("d"));
+    check_print(meta, "`{{ m?.missing?.x or \"d\" }}` must print d", "m?.missing?.x or \"d\"", Some("d"));
+    // `none?.a` is not parseable (`?.` only continues an identifier chain): a variable bound to none
+    check(meta, "`n?.a` with n = none must be undefined", "n?.a", &m, false, &is_val(&Value::undefined()));
+    check(meta, "`nope?.a` must be undefined", "nope?.a", &m, false, &is_val(&Value::undefined()));
+    check(meta, "`nope?[0]` must be undefined", "nope?[0]", &m, false, &is_val(&Value::undefined()));
+}
+
 // ------------------------------------------------------------------ main
 
 fn replay(path: &std::path::Path) {
@@ -2129,8 +2593,8 @@ fn main() {
     let thorough = args.tier == "thorough";
     let mut rng = Rng::new(args.seed);
     let hdr = "From TeraV Require Import Model.Value Model.Pratt Corr.CorrC02.\nOpen Scope nat_scope.";
-    let n_random = if thorough { 20_000 } else { 1_200 };
-    let n_mut = if thorough { 15_000 } else { 800 };
+    let n_random = if thorough { 12_000 } else { 500 };
+    let n_mut = if thorough { 10_000 } else { 500 };
     let mut run = Run {
         ptree: Sink::new(&args.out, "ptree", hdr, "check_ptree"),
         praw: Sink::new(&args.out, "praw", hdr, "check_praw"),
@@ -2184,6 +2648,39 @@ fn main() {
     }
 
     let Run { ptree, praw, mut meta, .. } = run;
+
+    // ---- family eval: the reference evaluator vs the engine
+    let ehdr = "From TeraV Require Import Model.Value Model.Pratt Spec.ExprSem Corr.CorrC02Eval.\nOpen Scope Z_scope.";
+    let mut eval = Sink::new(&args.out, "eval", ehdr, "check_eval");
+    let mut tera = Tera::default();
+    register_probe(&mut tera);
+    eval_oracles(&tera, &mut meta);
+    // (S) systematic: every operand x every shape
+    let shapes = eval_shapes();
+    let operands = eval_operands(if thorough { 1 } else { 2 });
+    for (xn, x, env) in &operands {
+        for (i, (sn, f)) in shapes.iter().enumerate() {
+            let e = f(x);
+            let tag = format!("{sn} @ {xn}");
+            emit_eval(&mut eval, &mut meta, &tera, &e, env, false, &tag, &mut rng);
+            if i < N_PRINT_SHAPES {
+                emit_eval(&mut eval, &mut meta, &tera, &e, env, true, &tag, &mut rng);
+            }
+        }
+    }
+    let eval_systematic = eval.count;
+    // (R) random
+    let vpool = value_pool();
+    let n_eval_random = if thorough { 15_000 } else { 800 };
+    for _ in 0..n_eval_random {
+        let (e, env) = random_eval_case(&mut rng, &vpool);
+        let print = rng.chance(1, 5);
+        emit_eval(&mut eval, &mut meta, &tera, &e, &env, print, "R:random", &mut rng);
+    }
+    meta.extra.insert("eval_systematic_cases".into(), json!(eval_systematic));
+    meta.extra.insert("eval_operands".into(), json!(operands.len()));
+    meta.extra.insert("eval_shapes".into(), json!(shapes.len()));
+    meta.extra.insert("eval_random".into(), json!(n_eval_random));
     meta.extra.insert("exhaustive_shapes".into(), json!(true));
     meta.extra.insert("exhaustive_shape_count".into(), json!(n_shapes));
     meta.extra.insert("exhaustive_cases".into(), json!(exhaustive_cases));
@@ -2196,5 +2693,6 @@ fn main() {
     meta.extra.insert("mutations".into(), json!(n_mut));
     meta.families.push(ptree.finish());
     meta.families.push(praw.finish());
+    meta.families.push(eval.finish());
     meta.write(&args.out);
 }
